@@ -323,8 +323,8 @@ C03_Value(o) ==      \* o = [defs, schema, dia, value, mode, steps, exempt]; res
   ELSE LET r == ValidD(o.defs, o.schema, o.value, "request", o.dia) IN
        IF o.mode = "positive" THEN (IF r = "F" THEN "valid-label-invalid-value" ELSE "ok")
        ELSE IF r = "T" THEN "invalid-label-valid-value"
-       ELSE IF ViolatesAs(o.defs, o.schema, o.steps, o.value, o.dia) = "F" THEN "description-mismatch"
-       ELSE "ok"
+       ELSE IF r = "F" /\ ViolatesAs(o.defs, o.schema, o.steps, o.value, o.dia) = "F" THEN "description-mismatch"
+       ELSE "ok"           \* (invalidity undecided => the manner of the violation is undecided too)
 (* ---- C03: case level ---- *)
 C03_Case(op, c, vs) ==             \* vs = [p \in Parts |-> Verdict(op, c, p)]
   LET structural == c.dup \/ ~c.methodDocumented
